@@ -255,7 +255,10 @@ def _is_file_value(v: Any) -> bool:
 
 
 def _register(context, job: Job, path: str) -> None:
-    location = next(iter(context.scheduler.get_locations(job.name)))
+    locations = context.scheduler.get_locations(job.name)
+    if not locations:
+        raise WorkflowExecutionException(f"Job {job.name} has no allocated location")
+    location = next(iter(locations))
     real = os.path.realpath(path)
     if real != path:
         raise HarnessError(f"kit files must be real paths: {path} -> {real}")
@@ -475,6 +478,8 @@ class KitTransferStep(TransferStep):
         context = self.workflow.context
         dst_connector = context.scheduler.get_connector(job.name)
         dst_locations = context.scheduler.get_locations(job.name)
+        if not dst_locations:  # allocation rolled back meanwhile (unreachable on the unchanged tree)
+            raise WorkflowExecutionException(f"Job {job.name} has no allocated location")
         dst_path_processor = get_path_processor(dst_locations[0])
         if source_location := await context.data_manager.get_source_location(path=path, dst_deployment=dst_connector.deployment_name):
             dst_path = dst_path_processor.join(job.input_directory, source_location.relpath)
